@@ -125,6 +125,27 @@ def job_iso(cfg):
         Ch = mh.C
         singles = [Models.Elastic.Isotropic(dim, E=Ee[e], v=v, planeStress=ps).C for e in range(2)]
     identity_check(res, Ch, np.array(singles, dtype=object), c.pc_since(mark), f"{label} per-element field of E", replay)
+    # the user's array is updated IN PLACE and assigned again (the same object): the next read is the law of the new values
+    Enew = c.var("Enew", Fraction(1, 100), 10 ** 4)
+    with facade.symbolic():
+        Ee[0] = Enew
+        mh.E = Ee
+        Ch2 = mh.C
+        singles2 = [Models.Elastic.Isotropic(dim, E=Ee[e], v=v, planeStress=ps).C for e in range(2)]
+
+    def replay_inplace(env):
+        arr = np.array([fval(c, env, Ee[1]) * 0.5 + 1.0, fval(c, env, Ee[1])])
+        vf = fval(c, env, v)
+        mm = Models.Elastic.Isotropic(dim, E=arr, v=vf, planeStress=ps)
+        _ = mm.C
+        arr[0] = fval(c, env, Enew)
+        mm.E = arr
+        got = np.asarray(mm.C)
+        want = np.array([Models.Elastic.Isotropic(dim, E=float(arr[e]), v=vf, planeStress=ps).C for e in range(2)])
+        err = float(np.abs(got - want).max() / np.abs(want).max())
+        return err > 1e-9, {"E_field_after_in_place_update": arr.tolist(), "v": vf, "relative_error_C_after_reassigning_the_same_array": err}
+
+    identity_check(res, Ch2, np.array(singles2, dtype=object), c.pc_since(mark), f"{label} per-element field updated in place and assigned again", replay_inplace)
     # twin
     o = prove_abs_le(as_sym(C[0, 0]) - as_sym(C[1, 1]) * 2, 0, pcs, "twin")
     res.twin(f"{label} twin", o.status == "cex")
